@@ -140,3 +140,84 @@ Qed.
 
 Print Assumptions copies_do_not_alias.
 Print Assumptions kept_copy_independent_of_argument.
+
+(* ------------------------------------------------------------------ *)
+(* bsonkit.Clone at the engine-level boundary *)
+
+Fixpoint clone_list (bin : hv -> bool) (ks : list hv) (m : loc) : list hv * loc :=
+  match ks with
+  | [] => ([], m)
+  | k :: t => let '(k', m1) := clone_share bin m k in
+              let '(t', m2) := clone_list bin t m1 in (k' :: t', m2)
+  end.
+
+Lemma clone_share_node bin n l p kids :
+  clone_share bin n (HNode l p kids) =
+  if bin (HNode l p kids) then (HNode l p kids, n)
+  else let '(kids', n') := clone_list bin kids (n + 1) in (HNode n p kids', n').
+Proof.
+  simpl. destruct (bin (HNode l p kids)); [reflexivity|].
+  assert (E : forall ks m,
+             (fix go (ks : list hv) (m : loc) : list hv * loc :=
+                match ks with
+                | [] => ([], m)
+                | k :: t => let '(k', m1) := clone_share bin m k in
+                            let '(t', m2) := go t m1 in (k' :: t', m2)
+                end) ks m = clone_list bin ks m).
+  { induction ks as [|k t IH]; intro m; simpl; [reflexivity|].
+    destruct (clone_share bin m k) as [k' m1]. rewrite IH. reflexivity. }
+  rewrite E. reflexivity.
+Qed.
+
+(* on a value without binaries Clone IS the fresh copy ... *)
+Theorem clone_no_bin_is_copy bin : forall v n,
+  no_bin bin v = true -> clone_share bin n v = copy_fresh n v.
+Proof.
+  apply (hv_ind' (fun v => forall n, no_bin bin v = true -> clone_share bin n v = copy_fresh n v)).
+  - reflexivity.
+  - intros l p kids IH n H. cbn [no_bin] in H. apply andb_true_iff in H. destruct H as [Hb Hk].
+    apply negb_true_iff in Hb. rewrite clone_share_node, Hb, copy_fresh_node.
+    assert (E : forall m, clone_list bin kids m = copy_list kids m).
+    { clear Hb. induction IH as [|k t Hk1 Ht IHt]; intro m; simpl; [reflexivity|].
+      simpl in Hk. apply andb_true_iff in Hk. destruct Hk as [Hk2 Hk3].
+      rewrite (Hk1 m Hk2). destruct (copy_fresh m k) as [k' m1].
+      rewrite (IHt Hk3 m1). reflexivity. }
+    rewrite E. reflexivity.
+Qed.
+
+(* ... so whatever the caller overwrites inside its argument afterwards, the
+   clone the transaction keeps is unchanged *)
+Theorem engine_clone_independent_partial bin arg n L :
+  no_bin bin arg = true -> below n arg ->
+  (forall l, In l L -> In l (locs arg)) ->
+  mutate L (fst (clone_share bin n arg)) = fst (clone_share bin n arg).
+Proof.
+  intros Hb B HL. rewrite (clone_no_bin_is_copy bin arg n Hb).
+  apply kept_copy_independent_of_argument; assumption.
+Qed.
+
+(* the full statement (without no_bin) is false of the faithful model: the
+   bytes of a Binary inside the argument are shared with the clone.  This is
+   the recorded finding C17:engine-level-argument-binary-bytes-shared; the
+   witness is a document with one binary field whose bytes are overwritten. *)
+Definition leaf_is_binary (v : hv) : bool :=
+  match v with HNode _ _ [] => true | _ => false end.
+
+Theorem engine_clone_independent_refuted :
+  exists arg n L,
+    below n arg /\ (forall l, In l L -> In l (locs arg)) /\
+    mutate L (fst (clone_share leaf_is_binary n arg)) <> fst (clone_share leaf_is_binary n arg).
+Proof.
+  exists (HNode 1 7 [HNode 2 9 []]), 10, [2]. split; [|split].
+  - intros l Hl. simpl in Hl. destruct Hl as [<-|[<-|[]]]; lia.
+  - intros l [<-|[]]. simpl. right. left. reflexivity.
+  - vm_compute. discriminate.
+Qed.
+
+(* non-vacuity of the partial statement: a nested document without binaries *)
+Example engine_clone_partial_nonvacuous :
+  no_bin leaf_is_binary (HNode 1 7 [HNode 2 9 [HScalar 3]; HScalar 4]) = true /\
+  below 10 (HNode 1 7 [HNode 2 9 [HScalar 3]; HScalar 4]).
+Proof.
+  split; [reflexivity|]. intros l Hl. simpl in Hl. destruct Hl as [<-|[<-|[]]]; lia.
+Qed.
